@@ -15,7 +15,7 @@ def knobs(r, i):
 def run(v, tier, seed, replay):
     cases, impl, model = seqcheck.run(v, tier, seed, replay, "C16", ["C16"], tree_oracles=["no_panic", "closures", "tree", "exactly_once"],
                                       wild_oracles=["no_panic", "closures"], knobs=knobs, wild_knobs=knobs,
-                                      n_quick=(400, 300), n_thorough=(30000, 20000),
+                                      n_quick=(1200, 900), n_thorough=(30000, 20000),
                                       nontrivial=lambda lines, tr: any(l.split()[1] in ("withProps", "addProps", "lWithProps", "lAddProps") for l in lines))
     # the statically disabled configuration: same programs, fastrace built without `enable`
     ok, err = C.cargo_build("fh-off", ["fh-off"])
